@@ -146,7 +146,7 @@ fn covcorpus(g: &mut Gen, prop: &str) {
 
 pub fn run_property(g: &mut Gen, p: &str) -> bool {
     corpus(g, p);
-    if !matches!(p, "C17" | "C18" | "C19") { covcorpus(g, p); }
+    if !matches!(p, "C18" | "C19") { covcorpus(g, p); }
     match p {
         "C01" => c01(g),
         "C02" => c02(g),
@@ -245,7 +245,18 @@ fn encode_case(g: &mut Gen, stratum: &str, key: (bool, u32), refuse: bool, total
 
 const BODY_KEYS: [(bool, u32); 5] = [(true, 20), (true, 30), (false, 31), (true, 32), (false, 33)];
 
+/// bodies so long that the packet length wraps in a 16-bit integer (65 540 = 2^16 + 4 is the first total whose
+/// byte count is 0 again), into buffers that could hold them: still refused, nothing written
+fn wide_encode_cases(g: &mut Gen) {
+    for total in [65_539usize, 65_540, 65_541, 65_548, 65_795, 65_796, 131_076] {
+        for key in BODY_KEYS {
+            encode_case(g, "wide", key, false, Some(total));
+        }
+    }
+}
+
 fn c03(g: &mut Gen) {
+    wide_encode_cases(g);
     let per = g.n(30, 1200);
     for key in all_keys() {
         for _ in 0..per {
@@ -332,6 +343,7 @@ fn c04_case(g: &mut Gen, stratum: &str, cfg: &Cfg, key: (bool, u32), total: Opti
 }
 
 fn c04(g: &mut Gen) {
+    wide_encode_cases(g);
     { let n = g.n(120, 5000); let k = all_keys(); hist_encode_stratum(g, n, &k, false); }
     let per = g.n(12, 300);
     for key in all_keys() {
@@ -499,6 +511,7 @@ fn c07(g: &mut Gen) {
 
 // ------------------------------------------------------------------------------------------------ C08
 fn c08(g: &mut Gen) {
+    wide_encode_cases(g);
     { let n = g.n(120, 5000); let k = vec![(true, 20u32), (true, 31), (false, 31), (true, 32), (false, 32), (true, 33), (false, 33)]; hist_encode_stratum(g, n, &k, false); }
     let per = g.n(150, 6000);
     for key in [(true, 20u32), (true, 31), (false, 31), (true, 32), (false, 32), (true, 33), (false, 33)] {
@@ -530,6 +543,7 @@ fn c08(g: &mut Gen) {
 
 // ------------------------------------------------------------------------------------------------ C16
 fn c16(g: &mut Gen) {
+    wide_encode_cases(g);
     { let n = g.n(120, 5000); let k = all_keys(); hist_encode_stratum(g, n, &k, true); }
     let per = g.n(25, 1000);
     for key in all_keys() {
@@ -742,9 +756,12 @@ fn control_grid(full: bool, r: &mut Rng, f: &mut dyn FnMut(&str, Vec<u8>)) {
             }
         }
     }
-    // the long ones: well-formed packets of every type with total length 250..=259 (byte count up to 0xFF)
+    // the long ones: well-formed packets of every type with total length 250..=259 (byte count up to 0xFF), and
+    // longer than any SMBus block (the byte count can no longer say so; the decoder goes by the slice it is given)
+    let mut totals: Vec<(usize, &str)> = (250..=259usize).map(|t| (t, "grid-maxlen")).collect();
+    for t in (260..=276usize).chain([300usize, 511, 512, 523, 524, 525, 600, 1036]) { totals.push((t, "grid-over")); }
     for ty in [0x00u8, 0x05, 0x06, 0x7E, 0x7F] {
-        for total in 250..=259usize {
+        for &(total, stratum) in &totals {
             let src = r.below(128) as u8;
             let body = if ty == 0 {
                 let rq = r.chance(1, 2);
@@ -753,9 +770,9 @@ fn control_grid(full: bool, r: &mut Rng, f: &mut dyn FnMut(&str, Vec<u8>)) {
                 ctl_body(rq, false, false, r.below(32) as u8, cmd, if rq { None } else { Some(0) }, &d)
             } else { r.bytes(total - 10) };
             let mut p = build_packet(r.below(128) as u8, src, 1, r.byte(), src, 0xC8, ty, &body);
-            f("grid-maxlen", p.clone());
+            f(stratum, p.clone());
             let i = p.len() - 1; p[i] ^= 0x10;
-            f("grid-maxlen", p);
+            f(stratum, p);
         }
     }
     // the short ones: every length 0..13 of a valid packet of every type, PEC refreshed or not
@@ -861,6 +878,20 @@ fn c10(g: &mut Gen) {
             let b = rbuf(r, 1); s.op(Op::Process(q, b));
         });
     }
+    // inputs whose length wraps in a 16-bit integer: random bytes, and a valid packet grown to that length
+    for base in [65536usize, 131072] {
+        let cfg = gen_cfg(&mut g.rng);
+        g.case("wide", &cfg, |s, r| {
+            for k in 0..6usize {
+                let len = base - 2 + k + if k >= 3 { 10 } else { 0 };
+                let mut q = gen_packet(r, true); q.resize(len, 0x5A);
+                if k % 2 == 0 { q[2] = r.byte(); }
+                let c = crc8(&q[..len - 1]); q[len - 1] = c;
+                s.op(Op::Decode(q.clone())); s.op(Op::GetLength(q.clone()));
+                s.op(Op::Process(q, vec![0u8; 32]));
+            }
+        });
+    }
     // long-lived contexts: more than 2^16 operations of one kind on one context (a statistic, sequence number or
     // retry budget kept per context must not wrap into a panic)
     for kind in 0..4u64 {
@@ -912,6 +943,17 @@ fn c17(g: &mut Gen) {
                     if r.chance(1, 2) { let k = r.below(12) as usize; p.extend(r.bytes(k)); }
                     s.op(Op::GetLength(p));
                 }
+            }
+        });
+    }
+    // continuations that make the total length wrap in a narrower integer type: around 2^8, 2^16 and 2 * 2^16
+    for base in [256usize, 512, 65536, 131072] {
+        g.case("wide", &cfg, |s, r| {
+            for k in 0..8usize {
+                let len = base - 3 + k;
+                let mut p = vec![r.byte(), if k % 4 == 3 { r.byte() } else { 0x0F }, r.byte()];
+                p.resize(len, 0xA5);
+                s.op(Op::GetLength(p));
             }
         });
     }
@@ -1054,7 +1096,9 @@ fn answerable_request(nvend: usize, cmd: u8, src: u8, inst: u8, r: &mut Rng) -> 
         1 => vec![r.pick(&[0u8, 1, 0, 1, 3]), 1 + r.below(254) as u8],
         4 => vec![r.pick(&[0xFFu8, 0, 1, 2, 3, 0x55])],
         6 => vec![r.below(nvend as u64) as u8],
-        _ => if r.chance(1, 6) { { let k_ = 1 + r.below(4) as usize; r.bytes(k_) } } else { vec![] },
+        _ => if r.chance(1, 6) { { let k_ = 1 + r.below(4) as usize; r.bytes(k_) } }
+             else if r.chance(1, 12) { let k_ = r.pick(&[243usize, 244, 247, 248, 255, 256, 257, 258, 300, 511, 512]); r.bytes(k_) }   // up to and beyond the frame limit
+             else { vec![] },
     };
     request(src, inst, cmd, &data, r)
 }
@@ -1104,6 +1148,47 @@ fn c12(g: &mut Gen) {
 fn s_nvend(s: &Session) -> usize { s.nvend }
 
 /// a random sequence of operations of every kind
+/// A control response as a peer would send it to this context in its requester role: data related to what the
+/// context holds (its own EIDs, the number of its vendor sets and the neighbours of that number as next selector)
+fn peer_response(s: &mut Session, r: &mut Rng, cmd: Option<u8>) {
+    let cmd = cmd.unwrap_or(1 + r.below(6) as u8);
+    let (a, er, es) = crate::exec::hint();
+    let n = s.nvend as u8;
+    let d: Vec<u8> = match cmd {
+        1 => vec![r.below(4) as u8, r.pick(&[er, es, 0, 0xFF, 0x42]), r.byte()],
+        2 => vec![r.pick(&[er, es, a, 0x42]), r.byte(), r.byte(), 0],
+        6 => {
+            let sel = r.pick(&[n, n, n.wrapping_sub(1), n.wrapping_add(1), 0xFF, 0, 1]);
+            let mut d = vec![sel];
+            if r.chance(1, 2) { d.extend([0u8, 0x12, 0x34, 0xAB, 0xCD]); } else { d.extend([1u8, 0, 1, 0x9C, 0x42, 1, 2]); }
+            d
+        }
+        _ => { let dl = fixed_resp_len(cmd).unwrap_or(2); r.bytes(dl) }
+    };
+    let cc = if r.chance(3, 4) { 0 } else { r.below(6) as u8 };
+    let src = r.below(128) as u8;
+    let dst = if r.chance(1, 2) { a & 0x7F } else { 0x11 };
+    let p = build_packet(dst, src, 1, r.pick(&[a, es, 0x22]), src, 0xC8, 0, &ctl_body(false, false, false, r.below(32) as u8, cmd, Some(cc), &d));
+    let b = pbuf(r, 64, 0); s.op(Op::Process(p, b));
+}
+
+/// process `p`; when it was answered, process it again into a buffer that already holds almost that answer (the
+/// previous response with its tail, its PEC or one byte altered): the answer must be rebuilt from the context
+fn process_near(s: &mut Session, r: &mut Rng, p: Vec<u8>) {
+    let b = pbuf(r, 64, 0);
+    if let Obs::ProcOk(_, _, _, Some(len), out) = s.op(Op::Process(p.clone(), b)) {
+        if len >= 12 && len <= out.len() {
+            let mut b2 = out.clone();
+            match r.below(3) {
+                0 => { b2[len - 1] = b2[len - 1].wrapping_add(1 + r.below(255) as u8); }
+                1 => { let i = 12 + r.below((len - 12) as u64) as usize; for x in b2[i..len].iter_mut() { *x = x.wrapping_add(1 + r.below(255) as u8); } }
+                _ => { let i = r.below(len as u64) as usize; b2[i] ^= 1 << r.below(8); }
+            }
+            s.op(Op::Process(p, b2));
+        }
+    }
+}
+
 fn history(s: &mut Session, len: usize, r: &mut Rng) {
     for _ in 0..len {
         match r.below(20) {
@@ -1115,7 +1200,7 @@ fn history(s: &mut Session, len: usize, r: &mut Rng) {
             4..=7 => { // the other answerable requests
                 let cmd = 2 + r.below(5) as u8;
                 let p = answerable_request(s.nvend, cmd, r.below(128) as u8, r.below(32) as u8, r);
-                let b = pbuf(r, 64, 0); s.op(Op::Process(p, b));
+                if r.chance(1, 4) { process_near(s, r, p); } else { let b = pbuf(r, 64, 0); s.op(Op::Process(p, b)); }
             }
             8 => { // selectors at / above n
                 let sel = if r.chance(1, 2) { s.nvend as u8 } else { r.pick(&[0xFFu8, 0xFE, 0x80, 17]) };
@@ -1132,14 +1217,7 @@ fn history(s: &mut Session, len: usize, r: &mut Rng) {
             14 => { let p = any_packet(s, r); s.op(Op::GetLength(p)); }
             15 => { s.op(Op::SetEid(r.chance(1, 2), r.cbyte())); }
             16 => { let u = r.uuid(); s.op(Op::SetUuid(u)); }
-            17 => { // responses (never answered)
-                let cmd = 1 + r.below(6) as u8;
-                let dl = fixed_resp_len(cmd).unwrap_or(2);
-                let d = r.bytes(dl);
-                let src = r.below(128) as u8;
-                let p = build_packet(0x11, src, 1, 0x22, src, 0xC8, 0, &ctl_body(false, false, false, 0, cmd, Some(if r.chance(1, 2) { 0 } else { r.below(6) as u8 }), &d));
-                let b = pbuf(r, 64, 0); s.op(Op::Process(p, b));
-            }
+            17 => { peer_response(s, r, None); } // responses (never answered; the context in its requester role)
             _ => { // encoder calls on either half
                 let keys = all_keys();
                 let key = keys[r.below(keys.len() as u64) as usize];
@@ -1218,8 +1296,11 @@ fn c14(g: &mut Gen) {
                 // then selectors in random order, interleaved with other traffic
                 for _ in 0..(2 * n) {
                     if r.chance(1, 4) { history(s, 1, r); }
-                    let p = request(r.below(128) as u8, r.below(32) as u8, 6, &[r.below(n as u64) as u8], r);
-                    let b = pbuf(r, 64, 0); s.op(Op::Process(p, b));
+                    // the context enumerating a peer's sets meanwhile: the peer's answers arrive in between
+                    if r.chance(1, 3) { peer_response(s, r, Some(6)); }
+                    let sel = if r.chance(1, 3) { (n - 1) as u8 } else { r.below(n as u64) as u8 };
+                    let p = request(r.below(128) as u8, r.below(32) as u8, 6, &[sel], r);
+                    if r.chance(1, 4) { process_near(s, r, p); } else { let b = pbuf(r, 64, 0); s.op(Op::Process(p, b)); }
                 }
             });
         }
@@ -1430,8 +1511,11 @@ fn c18(g: &mut Gen) {
                 for raw in chunk {
                     s.op(Op::Hdr { what: 0, fld, raw: raw.clone(), v: 0 });
                     if thorough || len != 2 || r.below(8) == 0 {
-                        let vs: [u64; 5] = [0, 1, maxv, r.next() & maxv, r.cbyte() as u64 & maxv];
-                        let v = vs[r.below(5) as usize];
+                        // ... and values related to what the buffer already holds: its bytes read in either order
+                        let mut le = 0u64; let mut be = 0u64;
+                        for (i, x) in raw.iter().enumerate() { be = be << 8 | *x as u64; le |= (*x as u64) << (8 * i); }
+                        let vs: [u64; 8] = [0, 1, maxv, r.next() & maxv, r.cbyte() as u64 & maxv, le & maxv, be & maxv, (le ^ 1) & maxv];
+                        let v = vs[r.below(8) as usize];
                         s.op(Op::Hdr { what: 1, fld, raw: raw.clone(), v: v as u32 });
                     }
                 }
